@@ -141,9 +141,21 @@ pub fn redraw_many(states: &[(WorldCfg, Vec<Ev>)], sizes: &[(u16, u16)]) -> Vec<
         .map(|(d, job)| match d {
             explore::Done::Ok(v) => v,
             explore::Done::Hung { stage } => {
-                let again = matches!(explore::run_jobs(vec![job], redraw_job).pop(), Some(explore::Done::Hung { .. }));
-                let key = if again { "never-returns:draw-resized" } else { "never-returns:draw:not-reproducible" };
-                vec![((0, 0), StepFail { phase: "hang".into(), key: key.into(), detail: format!("no return within {} s while {stage}{}", explore::JOB_TIMEOUT_S, if again { "" } else { "; the same state drew normally when replayed again" }) })]
+                let again = matches!(explore::run_jobs(vec![job.clone()], redraw_job).pop(), Some(explore::Done::Hung { .. }));
+                // a hang that needs the sizes drawn before it (same state, same size drawn on its own
+                // returns) depends on the layout cache / hash-map history of the thread: the signature
+                // of the layout-solver cycle (known finding); one that hangs on its own is a plain
+                // deterministic hang of the frame
+                let size: Option<(u16, u16)> = stage.rsplit(' ').next().and_then(|wh| wh.split_once('x')).and_then(|(w, h)| Some((w.parse().ok()?, h.parse().ok()?)));
+                let alone = again && size.is_some_and(|sz| matches!(explore::run_jobs(vec![(job.0.clone(), job.1.clone(), vec![sz])], redraw_job).pop(), Some(explore::Done::Hung { .. })));
+                let key = if !again {
+                    "never-returns:draw:not-reproducible"
+                } else if alone || size.is_none() {
+                    "never-returns:draw-resized"
+                } else {
+                    "never-returns:draw-resized:only-after-other-sizes"
+                };
+                vec![((0, 0), StepFail { phase: "hang".into(), key: key.into(), detail: format!("no return within {} s while {stage}{}", explore::JOB_TIMEOUT_S, if !again { "; the same state drew normally when replayed again" } else if alone { "; also when that size is drawn on its own" } else { "; the same state at that size alone draws normally - it needs the sizes drawn before it" }) })]
             }
             explore::Done::Crashed(m) => panic!("MACHINERY: a redraw job crashed: {m}"),
         })
